@@ -16,6 +16,9 @@ pub mod ed25519_dalek {
         pub uninterp spec fn pk_bytes(&self) -> Seq<u8>;
         #[verifier::external_body]
         pub fn as_bytes(&self) -> (r: &[u8; 32]) ensures r@ == self.pk_bytes() { unimplemented!() }
+        /// the return type of as_bytes is `&[u8; 32]`
+        #[verifier::external_body]
+        pub proof fn axiom_len(&self) ensures self.pk_bytes().len() == 32 {}
     }
     #[verifier::external_body]
     pub struct SigningKey { p: u8 }
@@ -23,6 +26,9 @@ pub mod ed25519_dalek {
         pub uninterp spec fn sk_bytes(&self) -> Seq<u8>;
         #[verifier::external_body]
         pub fn as_bytes(&self) -> (r: &[u8; 32]) ensures r@ == self.sk_bytes() { unimplemented!() }
+        /// the return type of as_bytes is `&[u8; 32]`
+        #[verifier::external_body]
+        pub proof fn axiom_len(&self) ensures self.sk_bytes().len() == 32 {}
     }
 }
 pub mod x25519_dalek {
@@ -33,6 +39,9 @@ pub mod x25519_dalek {
         pub uninterp spec fn pk_bytes(&self) -> Seq<u8>;
         #[verifier::external_body]
         pub fn as_bytes(&self) -> (r: &[u8; 32]) ensures r@ == self.pk_bytes() { unimplemented!() }
+        /// the return type of as_bytes is `&[u8; 32]`
+        #[verifier::external_body]
+        pub proof fn axiom_len(&self) ensures self.pk_bytes().len() == 32 {}
     }
     #[verifier::external_body]
     pub struct StaticSecret { p: u8 }
@@ -40,6 +49,9 @@ pub mod x25519_dalek {
         pub uninterp spec fn sk_bytes(&self) -> Seq<u8>;
         #[verifier::external_body]
         pub fn as_bytes(&self) -> (r: &[u8; 32]) ensures r@ == self.sk_bytes() { unimplemented!() }
+        /// the return type of as_bytes is `&[u8; 32]`
+        #[verifier::external_body]
+        pub proof fn axiom_len(&self) ensures self.sk_bytes().len() == 32 {}
     }
 }
 pub mod cx448 {
@@ -50,6 +62,9 @@ pub mod cx448 {
         pub uninterp spec fn pk_bytes(&self) -> Seq<u8>;
         #[verifier::external_body]
         pub fn as_bytes(&self) -> (r: &[u8; 57]) ensures r@ == self.pk_bytes() { unimplemented!() }
+        /// the return type of as_bytes is `&[u8; 57]`
+        #[verifier::external_body]
+        pub proof fn axiom_len(&self) ensures self.pk_bytes().len() == 57 {}
     }
     /// cx448::SigningKey::as_bytes returns `&SecretKey` = `&GenericArray<u8, U57>`; modelled as its octets
     #[verifier::external_body]
@@ -65,6 +80,9 @@ pub mod cx448 {
         pub uninterp spec fn sk_bytes(&self) -> Seq<u8>;
         #[verifier::external_body]
         pub fn as_bytes(&self) -> (r: &SecretBytes) ensures r.view() == self.sk_bytes() { unimplemented!() }
+        /// `SecretKey` = GenericArray<u8, U57>
+        #[verifier::external_body]
+        pub proof fn axiom_len(&self) ensures self.sk_bytes().len() == 57 {}
     }
     pub mod x448 {
         use vstd::prelude::*;
@@ -74,6 +92,9 @@ pub mod cx448 {
             pub uninterp spec fn pk_bytes(&self) -> Seq<u8>;
             #[verifier::external_body]
             pub fn as_bytes(&self) -> (r: &[u8; 56]) ensures r@ == self.pk_bytes() { unimplemented!() }
+            /// the return type of as_bytes is `&[u8; 56]`
+            #[verifier::external_body]
+            pub proof fn axiom_len(&self) ensures self.pk_bytes().len() == 56 {}
         }
         #[verifier::external_body]
         pub struct Secret { p: u8 }
@@ -81,6 +102,130 @@ pub mod cx448 {
             pub uninterp spec fn sk_bytes(&self) -> Seq<u8>;
             #[verifier::external_body]
             pub fn as_bytes(&self) -> (r: &[u8; 56]) ensures r@ == self.sk_bytes() { unimplemented!() }
+            /// the return type of as_bytes is `&[u8; 56]`
+            #[verifier::external_body]
+            pub proof fn axiom_len(&self) ensures self.sk_bytes().len() == 56 {}
         }
     }
 }
+
+//@trusted T2 num_bigint::BigUint / rsa::RsaPublicKey::{n,e} / dsa::{VerifyingKey::{components,y}, Components::{p,q,g}} / dsa::SigningKey::x: accessors return references to unsigned integers held in the key; `Mpi::from(&BigUint)` (src/types/mpi.rs:122: `Mpi(other.to_bytes_be().into())`) holds to_bytes_be() of the number, a function of the number
+#[verifier::external_body]
+pub struct BigUint { _x: u8 }
+impl BigUint {
+    /// big-endian magnitude as produced by to_bytes_be()
+    pub uninterp spec fn be_bytes(&self) -> Seq<u8>;
+}
+pub mod rsa {
+    use super::*;
+    #[verifier::external_body]
+    pub struct RsaPublicKey { _x: u8 }
+    impl RsaPublicKey {
+        pub uninterp spec fn n_bytes(&self) -> Seq<u8>;
+        pub uninterp spec fn e_bytes(&self) -> Seq<u8>;
+        #[verifier::external_body]
+        pub fn n(&self) -> (r: &BigUint) ensures r.be_bytes() == self.n_bytes() { unimplemented!() }
+        #[verifier::external_body]
+        pub fn e(&self) -> (r: &BigUint) ensures r.be_bytes() == self.e_bytes() { unimplemented!() }
+    }
+}
+pub mod dsa {
+    use super::*;
+    #[verifier::external_body]
+    pub struct Components { _x: u8 }
+    impl Components {
+        pub uninterp spec fn p_bytes(&self) -> Seq<u8>;
+        pub uninterp spec fn q_bytes(&self) -> Seq<u8>;
+        pub uninterp spec fn g_bytes(&self) -> Seq<u8>;
+        #[verifier::external_body]
+        pub fn p(&self) -> (r: &BigUint) ensures r.be_bytes() == self.p_bytes() { unimplemented!() }
+        #[verifier::external_body]
+        pub fn q(&self) -> (r: &BigUint) ensures r.be_bytes() == self.q_bytes() { unimplemented!() }
+        #[verifier::external_body]
+        pub fn g(&self) -> (r: &BigUint) ensures r.be_bytes() == self.g_bytes() { unimplemented!() }
+    }
+    #[verifier::external_body]
+    pub struct VerifyingKey { _x: u8 }
+    impl VerifyingKey {
+        pub uninterp spec fn comps(&self) -> Components;
+        pub uninterp spec fn y_bytes(&self) -> Seq<u8>;
+        #[verifier::external_body]
+        pub fn components(&self) -> (r: &Components) ensures *r == self.comps() { unimplemented!() }
+        #[verifier::external_body]
+        pub fn y(&self) -> (r: &BigUint) ensures r.be_bytes() == self.y_bytes() { unimplemented!() }
+    }
+    #[verifier::external_body]
+    pub struct SigningKey { _x: u8 }
+    impl SigningKey {
+        pub uninterp spec fn x_bytes(&self) -> Seq<u8>;
+        #[verifier::external_body]
+        pub fn x(&self) -> (r: &BigUint) ensures r.be_bytes() == self.x_bytes() { unimplemented!() }
+    }
+}
+
+//@trusted T2 elliptic_curve::PublicKey<C>::{to_encoded_point(compress).as_bytes(), to_sec1_bytes()} and SecretKey<C>::to_bytes() return the SEC1 encoding of the point / the scalar octets: byte strings that are functions of the key value (and of the compress flag); their exact lengths are not needed for the length agreement
+pub mod elliptic_curve {
+    use vstd::prelude::*;
+    #[verifier::external_body]
+    pub struct EncodedPoint { _x: u8 }
+    impl EncodedPoint {
+        pub uninterp spec fn view(&self) -> Seq<u8>;
+        #[verifier::external_body]
+        pub fn as_bytes(&self) -> (r: &[u8]) ensures r@ == self.view() { unimplemented!() }
+    }
+    /// `Box<[u8]>` / `GenericArray<u8, N>` returned by value: only `.as_ref()` / deref to `&[u8]` is used
+    #[verifier::external_body]
+    pub struct OwnedBytes { _x: u8 }
+    impl OwnedBytes {
+        pub uninterp spec fn view(&self) -> Seq<u8>;
+        #[verifier::external_body]
+        pub fn as_ref(&self) -> (r: &[u8]) ensures r@ == self.view() { unimplemented!() }
+    }
+    impl core::ops::Deref for OwnedBytes {
+        type Target = [u8];
+        #[verifier::external_body]
+        fn deref(&self) -> (r: &[u8]) ensures r@ == self.view() { unimplemented!() }
+    }
+    #[verifier::external_body]
+    #[verifier::reject_recursive_types(C)]
+    pub struct PublicKey<C> { _x: u8, _c: core::marker::PhantomData<C> }
+    impl<C> PublicKey<C> {
+        pub uninterp spec fn sec1(&self, compress: bool) -> Seq<u8>;
+        #[verifier::external_body]
+        pub fn to_encoded_point(&self, compress: bool) -> (r: EncodedPoint) ensures r.view() == self.sec1(compress) { unimplemented!() }
+        #[verifier::external_body]
+        pub fn to_sec1_bytes(&self) -> (r: OwnedBytes) ensures r.view() == self.sec1(false) { unimplemented!() }
+    }
+    #[verifier::external_body]
+    #[verifier::reject_recursive_types(C)]
+    pub struct SecretKey<C> { _x: u8, _c: core::marker::PhantomData<C> }
+    impl<C> SecretKey<C> {
+        pub uninterp spec fn scalar(&self) -> Seq<u8>;
+        #[verifier::external_body]
+        pub fn to_bytes(&self) -> (r: OwnedBytes) ensures r.view() == self.scalar() { unimplemented!() }
+    }
+}
+pub mod p256 { pub struct NistP256; pub type PublicKey = super::elliptic_curve::PublicKey<NistP256>; pub type SecretKey = super::elliptic_curve::SecretKey<NistP256>; }
+pub mod p384 { pub struct NistP384; pub type PublicKey = super::elliptic_curve::PublicKey<NistP384>; pub type SecretKey = super::elliptic_curve::SecretKey<NistP384>; }
+pub mod p521 { pub struct NistP521; pub type PublicKey = super::elliptic_curve::PublicKey<NistP521>; pub type SecretKey = super::elliptic_curve::SecretKey<NistP521>; }
+pub mod k256 { pub struct Secp256k1; pub type PublicKey = super::elliptic_curve::PublicKey<Secp256k1>; pub type SecretKey = super::elliptic_curve::SecretKey<Secp256k1>; }
+
+//@trusted T4 crypto::ecc_curve::ECCCurve::oid() (string splitting and iterator chains, outside the accepted subset) returns the DER content octets of the curve's OID: a function curve_oid() of the curve value, held in memory (shorter than 2^56 octets); derive(Clone) copies the value
+#[verifier::external_body]
+pub struct ObjectIdentifier { _x: u8 }
+pub enum ECCCurve { Curve25519Legacy, Ed25519Legacy, P256, P384, P521, BrainpoolP256r1, BrainpoolP384r1, BrainpoolP512r1, Secp256k1, Unknown(ObjectIdentifier) }
+impl ECCCurve {
+    pub uninterp spec fn curve_oid(&self) -> Seq<u8>;
+    #[verifier::external_body]
+    pub fn oid(&self) -> (r: Vec<u8>) ensures r@ == self.curve_oid(), r@.len() < 0x0100_0000_0000_0000 { unimplemented!() }
+}
+impl Clone for ECCCurve {
+    #[verifier::external_body]
+    fn clone(&self) -> (r: ECCCurve) ensures r == *self { unimplemented!() }
+}
+
+//@trusted T1 no in-memory byte vector is longer than 2^56 octets (virtual address space of every supported 64-bit target), so sums of a few lengths fit usize
+#[verifier::external_body]
+pub proof fn axiom_addr_space_vec(v: &Vec<u8>)
+    ensures v@.len() < 0x0100_0000_0000_0000
+{}
